@@ -156,7 +156,7 @@ Print Assumptions C16_values_directly_eq_nodes_then_values.
    reference over the tree, when replication nodes hold whole repetitions and the
    rendering unfolds attributes of attributes at least |path| levels deep *)
 Theorem C16_json_reference_eq_tree_reference : forall attrs ia vals labels k nodes cs,
-  wf_nodes vals nodes -> (length cs <= k)%nat ->
+  wf_nodes vals nodes -> simple_path cs = true -> (length cs <= k)%nat ->
   eval_json labels (render_nodes attrs ia vals k nodes) cs = eval_ref attrs labels nodes cs.
 Proof. exact eval_json_tree. Qed.
 Print Assumptions C16_json_reference_eq_tree_reference.
